@@ -170,6 +170,13 @@ def run(prog, chk, tier):
                         st.sys.entails_ge(code_v.e - num - 300) and st.sys.entails_ge(Lin.const(600) - code_v.e + num)
                     chk.ob("error-code-range", "ERROR-CODE: Ok => number byte <= 99 and class (code - number) / 100 in 3..=6", ok,
                            detail="Ok state: %r" % (st.sys,), how="E2 return state")
+            elif c[0] == "Err" and kind == "addr" and lv is not None and c[1] not in ("WrongAttributeImplementation",):
+                # a well-formed address value (family 1 with 8 bytes, family 2 with 20 bytes) is always accepted
+                fam = Lin.var("e1@" + lv)
+                bad4 = feasible(st, eqs=[at - code, fam - 1, ln - 8])
+                bad6 = feasible(st, eqs=[at - code, fam - 2, ln - 20])
+                chk.ob("address-family", "%s: (family 1, 8 bytes) and (family 2, 20 bytes) are never refused (%s)" % (name, c[1]), not bad4 and not bad6,
+                       detail="refusal %s is feasible for a well-formed address value" % c[1], how="E2 return state")
             elif c[0] == "Err" and c[1] in ("WrongAttributeImplementation", "Truncated", "TooLarge"):
                 if name.startswith("PASSWORD-ALGORITHM") and c[1] == "TooLarge":
                     continue      # a non-empty algorithm parameter is refused with TooLarge: depends on the value bytes
